@@ -232,11 +232,12 @@ fn tree_case(seed: u64) -> String {
     for i in 0..nfiles {
         let len = *rng.pick(&[0usize, 1, 50, 5000, 40_000]);
         let mut content = rng.bytes(len);
-        if rng.chance(1, 4) {
-            // zero runs (sparse candidates)
-            for b in content.iter_mut().take(len / 2) {
-                *b = 0;
-            }
+        match rng.below(8) {
+            // zero runs (sparse candidates): first half, last half, the whole file (a preallocated / zero-filled file)
+            0 | 1 => content.iter_mut().take(len / 2).for_each(|b| *b = 0),
+            2 => content.iter_mut().skip(len / 2).for_each(|b| *b = 0),
+            3 | 4 => content.iter_mut().for_each(|b| *b = 0),
+            _ => {}
         }
         let path: Vec<Vec<u8>> = match rng.below(3) {
             0 => vec![format!("f{i}").into_bytes()],
@@ -830,6 +831,56 @@ pub fn generate(thorough: bool, rng: &mut Rng, ops: &mut Vec<String>, stats: &mu
             u8::from(s),
             u8::from(m)
         ));
+    }
+    // zero-block grid (sparse restore): all-zero files and files whose first / last / only blocks are zero (Z = zero blob,
+    // N = non-zero blob, z / n = short tail) × sparse on/off × destination {absent, empty, shorter, longer, same size with
+    // other content, same size all zero}; verify / mtime-equal random (an accepted-unread file needs same size + mtime)
+    let pats: &[&str] = if thorough { &["Z", "z", "ZZ", "ZZZ", "Zz", "ZZz", "ZN", "NZ", "ZNZ", "NZN", "NZz", "Zn", "ZZn", "NNZ", "ZNN"] } else { &["Z", "z", "ZZZ", "Zz", "ZN", "NZ", "ZNZ", "NZz", "Zn"] };
+    let reps = if thorough { 4 } else { 1 };
+    for _ in 0..reps {
+        for pat in pats {
+            for dst in 0..6 {
+                for sparse in [true, false] {
+                    let chunk = *rng.pick(&[4usize, 8, 16]);
+                    let mut content = Vec::new();
+                    for c in pat.bytes() {
+                        let l = if c.is_ascii_uppercase() { chunk } else { 1 + rng.below(chunk as u64 - 1) as usize };
+                        if c.eq_ignore_ascii_case(&b'z') {
+                            content.extend(std::iter::repeat(0u8).take(l));
+                        } else {
+                            // non-zero blob: no zero byte at all
+                            content.extend(rng.bytes(l).into_iter().map(|b| b | 1));
+                        }
+                    }
+                    let len = content.len();
+                    let (alt, extra) = (rng.chance(1, 2), 1 + rng.below(9) as usize);
+                    let old = match dst {
+                        0 => None,
+                        1 => Some(vec![]),
+                        2 => Some(if alt { vec![0xff; len.div_ceil(2).min(len - 1)] } else { content[..len - 1].to_vec() }),
+                        3 => Some(if alt {
+                            vec![0xff; len + extra]
+                        } else {
+                            let mut d = content.clone();
+                            d.extend_from_slice(&rng.bytes(extra));
+                            d
+                        }),
+                        4 => Some(if alt { vec![0xff; len] } else { rng.bytes(len).into_iter().map(|b| b | 2).collect() }),
+                        _ => Some(vec![0; len]),
+                    };
+                    let (v, m) = (rng.chance(1, 2), rng.chance(1, 3));
+                    stats.hit(format!("zero-grid.{}.dst{dst}.s{}", if pat.bytes().all(|c| c.eq_ignore_ascii_case(&b'z')) { "all-zero" } else { "mixed" }, u8::from(sparse)));
+                    ops.push(format!(
+                        "c14 file {chunk} {} {} {} {} {}",
+                        hex(&content),
+                        old.map_or("~".to_string(), |o| hex(&o)),
+                        u8::from(v),
+                        u8::from(sparse),
+                        u8::from(m)
+                    ));
+                }
+            }
+        }
     }
     let items: [&[u8]; 14] = [b"a", b"a/b", b"..", b"../x", b"a/../..", b"a/../../x", b"/etc/passwd", b"/", b"./a", b"a/..", b"...", b"..a", b"a//b", b""];
     for it in items {
